@@ -499,13 +499,15 @@ func (p *parser) parseMapLiteral() Node {
 	if len(mapLit.Pairs) == 0 {
 		return mapLit
 	}
+	// Iterate in source order, map iteration order is random and
+	// combineTypes depends on the order of its arguments.
 	types := make([]*Type, 0, len(mapLit.Pairs))
-	for _, n := range mapLit.Pairs {
-		types = append(types, n.Type())
+	for _, key := range mapLit.Order {
+		types = append(types, mapLit.Pairs[key].Type())
 	}
 	sub := combineTypes(types)
-	for key, val := range mapLit.Pairs {
-		mapLit.Pairs[key] = wrapAny(val, sub)
+	for _, key := range mapLit.Order {
+		mapLit.Pairs[key] = wrapAny(mapLit.Pairs[key], sub)
 	}
 	mapLit.T = &Type{Name: MAP, Sub: sub}
 	return mapLit
